@@ -44,6 +44,17 @@ theorem user_step (f : UFault) (size : Row → Nat) (st : UState) (now : Nat) (r
       simp only [Prod.mk.injEq] at h
       obtain ⟨rfl, _, rfl⟩ := h
       simp [Reply.ok, Reply.proceed]
+  | panicAt k =>
+    simp only at h
+    by_cases hk : (st.n == k) = true
+    · rw [if_pos hk] at h
+      simp only [Prod.mk.injEq] at h
+      obtain ⟨rfl, _, rfl⟩ := h
+      simp [Reply.ok, Reply.fail]
+    · rw [if_neg hk] at h
+      simp only [Prod.mk.injEq] at h
+      obtain ⟨rfl, _, rfl⟩ := h
+      simp [Reply.ok, Reply.proceed]
   | sleepAt k dd =>
     simp only at h
     by_cases hk : (st.n == k) = true
@@ -96,6 +107,39 @@ theorem user_fed (f : UFault) (size : Row → Nat) : ∀ (rows : List Row) (st s
         cases htail
         simp [Reply.ok, Reply.proceed] at hk2'
       | cons a t => simp [List.dropLast_cons_of_ne_nil]
+
+/-- one call of the callback that panics at call k: answered without error ⇒ it was not call k -/
+theorem panic_step (k : Nat) (size : Row → Nat) (st : UState) (now : Nat) (r : Row) (st1 : UState) (d : Nat)
+    (rep : Reply) (h : (userSink (.panicAt k) size).onRow st now r = (st1, d, rep)) :
+    st1.n = st.n + 1 ∧ (rep.err = none → st.n ≠ k) := by
+  simp only [userSink] at h
+  by_cases hk : (st.n == k) = true
+  · rw [if_pos hk] at h
+    simp only [Prod.mk.injEq] at h
+    obtain ⟨rfl, _, rfl⟩ := h
+    simp [Reply.fail]
+  · rw [if_neg hk] at h
+    simp only [Prod.mk.injEq] at h
+    obtain ⟨rfl, _, rfl⟩ := h
+    exact ⟨rfl, fun _ => by simpa using hk⟩
+
+/-- a feeding of the panicking callback that ends without error never made call k -/
+theorem panic_fed (k : Nat) (size : Row → Nat) : ∀ (rows : List Row) (st st' : UState) (rep : Reply),
+    Fed (userSink (.panicAt k) size) st rows st' rep → rep.err = none → st.n ≤ k → st'.n ≤ k := by
+  intro rows st st' rep h
+  induction h with
+  | nil s0 => intro _ hn; exact hn
+  | @last s0 now r s1 d rp hr hk =>
+    intro he hn
+    obtain ⟨h1, h2⟩ := panic_step k size s0 now r s1 d rp hr
+    have := h2 he
+    omega
+  | @cons s0 now r s1 d rp rs s2 rp2 hr hk _ ih =>
+    intro he hn
+    obtain ⟨h1, h2⟩ := panic_step k size s0 now r s1 d rp hr
+    have hrp : rp = Reply.proceed := (Reply.ok_iff rp).mp hk
+    have := h2 (by rw [hrp]; rfl)
+    exact ih he (by omega)
 
 /-- what `Polite` means for the recording callback: the recorded rows are a prefix of `l`,
     all of `l` unless the caller's own stop fault fired -/
